@@ -254,6 +254,33 @@ pub fn malformed(rng: &mut Rng) -> String {
 }
 
 /// the mixed stream every document-level oracle draws from
+/// characters that Unicode-aware predicates (`is_numeric`, `is_alphabetic`, `is_whitespace`, case folding) accept where
+/// CommonMark means the ASCII ones - put at the places where the syntax looks at a character class
+pub fn confusable(rng: &mut Rng) -> String {
+    const DIG: &[char] = &['１', '٣', '²', 'Ⅰ', '½', '৩', '𝟗', '₂', '〇'];
+    const LET: &[char] = &['Ａ', 'ａ', 'é', 'ſ', '\u{212a}', 'ı', 'İ', 'ǅ', 'ß', 'Ω'];
+    const SPC: &[char] = &['\u{a0}', '\u{2003}', '\u{3000}', '\u{1680}', '\u{85}', '\u{2028}', '\u{200b}', '\u{feff}', '\u{b}', '\u{c}'];
+    const PUN: &[char] = &['！', '＃', '＊', '－', '．', '）', '［', '＞', '｀', '＿', '：', '～', '＜', '‐', '•'];
+    if rng.chance(1, 2) {
+        let d = *rng.pick(DIG); let d2 = *rng.pick(DIG); let l = *rng.pick(LET); let sp = *rng.pick(SPC); let p = *rng.pick(PUN);
+        let t = *rng.pick(&["{d}. x", "{d}) x", "a\n{d}. b", "{d}{e}. x\n{d}. y", "- {d}. x", "> {d}.", "1{d}. x", "{d}.", "#{s}h", "# h{s}#", "{p}{p}{p}", "-{s}x", "1.{s}x", "{s}{s}{s}{s}code",
+            "&#{d};", "&#x{d};", "&#{d}{e};", "&{l}mp;", "<{l}ttp://x.y>", "<http://x{s}y>", "[a]({l}avascript:x)", "[a](<x{s}y>)", "[{l}]: /u\n\n[{L}]", "```{l}{s}i\nx\n```", "~~~{d}\n~~~",
+            "*{s}a{s}*", "**a{p}**b", "_{l}_a", "a{s}{s}\nb", "\\{p}", "\\{d}", "`{s}a{s}`", "<{l}iv>", "<!{l} x>", "<a {l}={d}>", "[x][{d}]\n\n[{d}]: /u", "{p} x", "{p}. x", "1{p} x", "={s}\n===", "x\n{p}{p}{p}"]);
+        t.replace("{d}", &d.to_string()).replace("{e}", &d2.to_string()).replace("{l}", &l.to_string()).replace("{L}", &l.to_uppercase().to_string())
+            .replace("{s}", &sp.to_string()).replace("{p}", &p.to_string())
+    } else {
+        let base = if rng.chance(1, 2) { rng.pick(&SPEC).clone() } else { grammar_doc(rng) };
+        let mut chars: Vec<char> = base.chars().collect();
+        for _ in 0..rng.range(1, 5) {
+            if chars.is_empty() { break; }
+            let i = rng.below(chars.len());
+            let c = chars[i];
+            chars[i] = if c.is_ascii_digit() { *rng.pick(DIG) } else if c.is_ascii_alphabetic() { *rng.pick(LET) } else if c == ' ' || c == '\t' { *rng.pick(SPC) } else if c.is_ascii_punctuation() { *rng.pick(PUN) } else { c };
+        }
+        chars.into_iter().collect()
+    }
+}
+
 pub fn any_doc(rng: &mut Rng) -> String {
     let d = any_doc0(rng);
     // a byte order mark in front of the document is ordinary text to the parser
@@ -268,7 +295,7 @@ fn any_doc0(rng: &mut Rng) -> String {
         15 => { let s = rng.pick(&SPEC).clone(); wrap_container(rng, &s) }
         16 => if rng.chance(1, 6) { counter_boundary(rng) } else { let n = if rng.chance(1, 4) { rng.range(60, 160) } else { rng.range(1, 12) }; adversarial(rng, n) }
         17 => malformed(rng),
-        18 => sig_string(rng, 30),
+        18 => if rng.chance(1, 2) { sig_string(rng, 30) } else { confusable(rng) },
         _ => { let d = grammar_doc(rng); mutate(rng, &d) }
     }
 }
